@@ -116,7 +116,8 @@ def stmt_text(msg, wrap, i):
 
 
 def work(job):
-    built, fileseed, cases, idbase = job
+    built, fileseed, cases, idbase = job[:4]
+    lockv = job[4] if len(job) > 4 else None
     gf = gen.GenFile("\n")
     expect = []
     for i, (cls, msg, wrap) in enumerate(cases):
@@ -130,7 +131,10 @@ def work(job):
     if idbase:
         files["src/base.rs"] = ('fn b() { info!("[ref: %d] existing"); }\n' % idbase).encode()
     with core.Box(tag="c12") as box:
-        out = lab.run_tree(built, box, files, core.make_config(use_cache=False), trace=True)
+        # (with a lock value: the cache is on and the lock is behind the tokens in the code - a lock kept from an older branch. Which
+        # statements count as referenced does not depend on where the numbering starts.)
+        out = lab.run_tree(built, box, files, core.make_config(use_cache=None if lockv else False), trace=True,
+                           lock=core.lock_text(lockv) if lockv else None)
     fo = out.files["src/f.rs"]
     res = {"evaluations": 2, "nontrivial": [], "violations": [], "samples": [], "inconclusive": {}, "counters": {}}
     if out.check.panicked() or out.edit.panicked():
@@ -141,7 +145,7 @@ def work(job):
         # reference token at all - this property's own subject
         res["violations"].append({"signature": "C12.inserted-text-is-not-a-reference-token",
                                   "detail": {"before_head": fo.before[:200], "after_head": (fo.after or b"")[:260]},
-                                  "case": {"cases": [list(c) for c in cases[:40]], "idbase": idbase}})
+                                  "case": {"cases": [list(c) for c in cases[:40]], "idbase": idbase, "lock": lockv}})
         return res
     rep = set(fo.reported)
     tok = {t["off"]: t for t in fo.tokens}
@@ -173,7 +177,7 @@ def work(job):
             res["violations"].append({"signature": "C12.%s|%s|%s" % (clause, cls.split("-")[0], shape(msg[:-len(REST)] if msg.endswith(REST) else msg)),
                                       "detail": {"message": msg, "class": cls, "model": want,
                                                  "hook": tr.get(o), "reported": o in rep, "token": tok.get(o)},
-                                      "case": {"cases": [[cls, msg, None]] * (3 if cls.startswith("dup-") else 1), "idbase": idbase}})
+                                      "case": {"cases": [[cls, msg, None]] * (3 if cls.startswith("dup-") else 1), "idbase": idbase, "lock": lockv}})
     # every inserted token satisfies the rule and the documented regex
     after = fo.after
     for t in fo.tokens:
@@ -216,6 +220,8 @@ def main(tier):
     bases = [0, 0, 4290000001, 99, 0, 2147483646]
     for n, i in enumerate(range(0, len(low), PER_FILE)):
         jobs.append((built, "%d-%d" % (ck.seed, n), low[i:i + PER_FILE], bases[n % len(bases)]))
+        if n % 3 == 1:
+            jobs.append((built, "%d-%d-lock" % (ck.seed, n), low[i:i + PER_FILE], 0, [1, 3, 5, 42, 1000][(n // 3) % 5]))
     for n, i in enumerate(range(0, len(high), PER_FILE)):
         jobs.append((built, "%d-high%d" % (ck.seed, n), high[i:i + PER_FILE], 0))
     # the same literal several times in one file (a statement copied and pasted together with its token, or without one): the
@@ -253,7 +259,7 @@ def replay_witness(w, ck=None, built=None):
     cases = [tuple(x[:2]) + (tuple(x[2]) if x[2] else None,) for x in c["cases"]]
     if not cases:
         return False
-    r = work((built, "replay", cases, c.get("idbase", 0)))
+    r = work((built, "replay", cases, c.get("idbase", 0), c.get("lock")))
     return bool(r["violations"])
 
 
